@@ -81,6 +81,13 @@ def cases(rng, tier):
                 t = [fill] * 4
                 t[pos] = a
                 out.append("UNHEX " + xhex(b"".join(t)))
+    # counts of bad characters at 8- and 16-bit wrap-around: 255 / 256 / 257 / 512 invalid characters, alone and between valid digits
+    for bad in (b"+f", b"zz", b"0+", b" 0", b"g0"):
+        for k in (127, 128, 129, 255, 256, 257, 512):
+            out.append("UNHEX " + xhex(bad * k))
+    for k in (255, 256, 257):
+        out.append("UNHEX " + xhex(b"0" + "é".encode() * (k // 2) + b"0"))
+        out.append("UNHEX " + xhex(b"ab" * k))
     # every 2-byte UTF-8 character (U+0080..U+07FF) as a "pair", and in front of / behind one hex digit
     for cp in range(0x80, 0x800):
         u = chr(cp).encode("utf-8")
